@@ -33,7 +33,7 @@ RULE = ('family = one store (new / from_dict / from_list with immutable_warranty
 PROBES = ['iterator_kept_open', 'slice_dataset_kept', 'two_client_threads', 'mutated_then_reread_same_path', 'mutated_then_reread_other_path',
           'original_container_mutated', 'read_by_prefetch_worker',
           'first_access_object_mutated', 'cached_access_object_mutated',
-          'endless_repetition_second_round', 'constructed_through_another_entry_point', 'original_container_grew_or_shrank', 'empty_container_refused', 'dataset_from_json_file']
+          'copy_kept_and_read_again', 'endless_repetition_second_round', 'constructed_through_another_entry_point', 'original_container_grew_or_shrank', 'empty_container_refused', 'dataset_from_json_file']
 BUDGET = {
     'quick': {'families': 7000, 'wall_cap': 420, 'shrink_s': 12},
     'thorough': {'families': 70000, 'wall_cap': 5400, 'shrink_s': 30},
@@ -99,6 +99,24 @@ def gen(rng, tier, index):
                           'ops': []})
         return cases
     cases = []
+    if rng.random() < 0.12:
+        # derived datasets that are kept: read, mutate what was handed out, read
+        # again through the very same derived object
+        for j in range(3):
+            ops = []
+            opener = rng.choice([['kc_open', rng.randrange(1, 3)], ['ks_open', 0]])
+            ops.append(opener)
+            for _ in range(rng.randrange(2, 5)):
+                i = rng.randrange(n)
+                if opener[0] == 'kc_open':
+                    ops.append(['kc_read', i, rng.choice(['index', 'iter', 'slice'])])
+                else:
+                    ops.append(['ks_read', i])
+                ops.append(['mutate', rng.choice(MUTS), -1])
+                if rng.random() < 0.5:
+                    ops.append(['read', rng.choice(['index', 'iter', 'copy']), i, 0])
+            cases.append({'store': store, 'n': n, 'kind': kind, 'shape': shape, 'ops': ops})
+        return cases
     for j in range(3):
         ops = []
         for _ in range(rng.randrange(5, 17)):
@@ -108,6 +126,11 @@ def gen(rng, tier, index):
                 ops.append(rng.choice([['it_open', rng.choice(['iter', 'items', 'cycle']) if kind == 'dict'
                                         else rng.choice(['iter', 'cycle'])],
                                        ['it_next'], ['it_next'], ['it_next']]))
+            elif r < 0.2 and rng.random() < 0.5:
+                # a copy (or a copy of a copy) that is kept and read repeatedly
+                ops.append(rng.choice([['kc_open', rng.randrange(1, 3)],
+                                       ['kc_read', rng.randrange(n), rng.choice(['index', 'iter', 'slice'])],
+                                       ['kc_read', rng.randrange(n), rng.choice(['index', 'iter', 'slice'])]]))
             elif r < 0.2:
                 # a slice dataset that is kept and read repeatedly
                 ops.append(rng.choice([['ks_open', rng.randrange(n)], ['ks_read', rng.randrange(n)],
@@ -284,6 +307,7 @@ def run(case):
                 _dc.Cache.__setitem__ = _c11._faulty_setitem
             held_it = None      # [iterator, next index, path]
             kept = None         # [slice dataset, start]
+            kept_copy = None    # a copy() of the dataset, kept
             for op in case['ops']:
                 if violations:
                     break
@@ -326,6 +350,27 @@ def run(case):
                             raise
                         check(held_it[1], v, held_it[2])
                         held_it[1] += 1
+                    continue
+                if op[0] == 'kc_open':
+                    kept_copy = ds.copy()
+                    for _ in range(op[1] - 1):
+                        kept_copy = kept_copy.copy()
+                    probes['copy_kept_and_read_again'] = 1
+                    continue
+                if op[0] == 'kc_read':
+                    if kept_copy is not None:
+                        try:
+                            if op[2] == 'index':
+                                check(op[1], kept_copy[op[1]], 'kept_copy')
+                            elif op[2] == 'iter':
+                                for j, v in enumerate(kept_copy):
+                                    check(j, v, 'kept_copy')
+                            else:
+                                for j, v in zip(range(op[1], n), kept_copy[op[1]:]):
+                                    check(j, v, 'kept_copy')
+                        except (OSError, _sq.OperationalError):
+                            if case['store'] != 'diskcache':
+                                raise
                     continue
                 if op[0] == 'ks_open':
                     kept = [ds[op[1]:], op[1]]
